@@ -244,7 +244,11 @@ impl Run {
         });
         let evdir = root.join("evidence");
         let _ = std::fs::create_dir_all(&evdir);
-        let evpath = evdir.join(format!("{}.json", self.id));
+        // a worker process of a check that supervises several processes writes its part elsewhere
+        let evpath = match std::env::var("VERIF_EVIDENCE_PATH") {
+            Ok(p) => std::path::PathBuf::from(p),
+            Err(_) => evdir.join(format!("{}.json", self.id)),
+        };
         if let Err(e) = std::fs::write(&evpath, serde_json::to_string_pretty(&ev).unwrap()) {
             eprintln!("MACHINERY: cannot write evidence {}: {e}", evpath.display());
             std::process::exit(2);
